@@ -20,6 +20,10 @@ func init() {
 
 // optionsOrigin: v is the function's *ApplyOptions parameter or the result of NewApplyOptions().
 func optionsOrigin(v ssa.Value) string {
+	return optionsOriginSeen(v, map[ssa.Value]bool{})
+}
+
+func optionsOriginSeen(v ssa.Value, seen map[ssa.Value]bool) string {
 	switch x := v.(type) {
 	case *ssa.Parameter:
 		if isPtrToNamed(x.Type(), "ApplyOptions") {
@@ -30,9 +34,13 @@ func optionsOrigin(v ssa.Value) string {
 			return "NewApplyOptions()"
 		}
 	case *ssa.Phi:
+		if seen[x] {
+			return "" // a loop-carried value: not one origin
+		}
+		seen[x] = true
 		var parts []string
 		for _, e := range x.Edges {
-			o := optionsOrigin(e)
+			o := optionsOriginSeen(e, seen)
 			if o == "" {
 				return ""
 			}
